@@ -77,7 +77,7 @@ class ExpectedImprovement(AcquisitionFunction):
         mu, sig = self.gp(x)
         Z = (mu[0] - self.mu_max) / sig[0]
         if Z < -3:
-            ln_EI = log(1 + Z * self.cdf_pdf_ratio(Z)) + self.ln_pdf(Z) + log(sig[0])
+            ln_EI = log(self.tail_factor(Z)) + self.ln_pdf(Z) + log(sig[0])
             EI = exp(ln_EI)
         else:
             pdf = self.normal_pdf(Z)
@@ -89,7 +89,7 @@ class ExpectedImprovement(AcquisitionFunction):
         mu, sig = self.gp(x)
         Z = (mu[0] - self.mu_max) / sig[0]
         if Z < -3:
-            ln_EI = log(1 + Z * self.cdf_pdf_ratio(Z)) + self.ln_pdf(Z) + log(sig[0])
+            ln_EI = log(self.tail_factor(Z)) + self.ln_pdf(Z) + log(sig[0])
         else:
             pdf = self.normal_pdf(Z)
             cdf = self.normal_cdf(Z)
@@ -103,7 +103,7 @@ class ExpectedImprovement(AcquisitionFunction):
 
         if Z < -3:
             R = self.cdf_pdf_ratio(Z)
-            H = 1 + Z * R
+            H = self.tail_factor(Z)
             ln_EI = log(H) + self.ln_pdf(Z) + log(sig[0])
             grad_ln_EI = (0.5 * dvar / sig[0] + R * dmu) / (H * sig[0])
         else:
@@ -132,6 +132,18 @@ class ExpectedImprovement(AcquisitionFunction):
 
     def cdf_pdf_ratio(self, z):
         return self.rpi2 * erfcx(-z * self.ir2)
+
+    def tail_factor(self, z):
+        """
+        The factor 1 + z * cdf(z) / pdf(z) of the far-tail form of the expected improvement.
+        """
+        if z > -50.0:
+            return 1 + z * self.cdf_pdf_ratio(z)
+        # the two terms agree to 1/z**2, so for large |z| their sum loses all its
+        # digits (and can come out as zero or negative): use the asymptotic series
+        # 1/z**2 - 3/z**4 + 15/z**6 - 105/z**8 + ... instead
+        u = 1.0 / z**2
+        return u * (1 - 3 * u * (1 - 5 * u * (1 - 7 * u * (1 - 9 * u * (1 - 11 * u)))))
 
     def ln_pdf(self, z):
         return -0.5 * (z**2 + self.ln2pi)
